@@ -6,12 +6,16 @@ import glob, json, os
 root = os.path.dirname(os.path.dirname(os.path.abspath(__file__)))
 keys = set()
 digest = {}
+structure = {}
 for p in glob.glob(os.path.join(root, "evidence", "C*.json")):
     ev = json.load(open(p))
     keys |= set(ev["coverage"].get("t1_fully_discharged", []))
     digest.update(ev["coverage"].get("t1_vc_digest", {}))
+    structure.update(ev["coverage"].get("t1_structure", {}))
 # vc_digest: sha1 over the formulas of the contract as discharged; a later run whose formulas are identical and whose solver
 # merely runs out of budget is recorded as undecided instead of reported (pyvc/run.py)
-out = {"fully_discharged": sorted(keys), "vc_digest": {k: digest[k] for k in sorted(digest) if k in keys}}
+# structure: loop headers / comprehension count / repository callees of each function when its contract was discharged; if a later
+# run finds another structure, failing obligations mean "proof to be redone" and are not reported (pyvc/run.py)
+out = {"fully_discharged": sorted(keys), "vc_digest": {k: digest[k] for k in sorted(digest) if k in keys}, "structure": {k: structure[k] for k in sorted(structure) if k in keys}}
 json.dump(out, open(os.path.join(root, "contracts", "BASELINE_DISCHARGED.json"), "w"), indent=1)
 print(len(keys), "contracts in baseline")
